@@ -6,7 +6,7 @@ from . import C05
 PROOF_MODULE = "Nlmodel.Proofs.C02"
 PROOF_FILES = ["Nlmodel/Proofs/C02.lean", "Nlmodel/Proofs/Lemmas/VerifierInv.lean", "Nlmodel/Proofs/Lemmas/VerifierStep.lean", "Nlmodel/Proofs/Lemmas/VerifierSound.lean", "Nlmodel/Model/Verifier.lean", "Nlmodel/Model/VM.lean", "Nlmodel/Model/Bytecode.lean"]
 THEOREM_FILE = PROOF_FILES[0]
-LEVEL_TEXT = ("A verified bytecode checker. Model/Verifier.check validates, on the decoded BYTE stream, a certificate (owner function and a lower bound on the operand-stack height per instruction): every certified offset decodes to a valid opcode with its operands inside the code; every jump target, fall-through and function entry found in the constant pool is a certified instruction start of the same function; constant indices, builtin numbers and local slots are in range; Halt occurs only in top-level code and Return only in functions; pops never exceed the lower bound. Proofs/C02 proves SOUNDNESS over the machine model for all 45 opcodes: from a state satisfying the invariant (certificate entry at the instruction pointer; base pointer + locals + lower bound <= stack size; every suspended frame can take its pending result; every function value in stack, globals, constants and heap arrays is a checked entry with its locals count) a step of a checked program halts, returns an error value, or continues in such a state - it never faults - hence a checked program never reaches a fault in any number of steps (C02_check_sound, also for a retained machine); the certificate inference is untrusted. What remains partial: that the compiler emits only checkable bytecode is not a theorem (C02_compiler_verifiable of the design) - it is decided per program by running the verified checker on the real bytes. The check runs this checker on the REAL compiler's real bytes and constant pool for every generated source (all paths of that bytecode, not only the path taken), so it is independent of the compiler model; the machine model the theorems speak about is tied to vm.rs by step-count/stack-height/collection correspondence, and the fault probes in vm.rs (hook) turn any out-of-contract access of the real VM into a reported FAULT.")
+LEVEL_TEXT = ("A verified bytecode checker. Model/Verifier.check validates, on the decoded BYTE stream, a certificate (owner function and a lower bound on the operand-stack height per instruction): every certified offset decodes to a valid opcode with its operands inside the code; every jump target, fall-through and function entry found in the constant pool is a certified instruction start of the same function; constant indices, builtin numbers and local slots are in range; Halt occurs only in top-level code and Return only in functions; pops never exceed the lower bound. Proofs/C02 proves SOUNDNESS over the machine model for all 45 opcodes: from a state satisfying the invariant (certificate entry at the instruction pointer; base pointer + locals + lower bound <= stack size; every suspended frame can take its pending result; every function value in stack, globals, constants and heap arrays is a checked entry with its locals count) a step of a checked program halts, returns an error value, or continues in such a state - it never faults - hence a checked program never reaches a fault in any number of steps (C02_check_sound, also for a retained machine); the certificate inference is untrusted. That the compiler MODEL emits only checkable bytecode is a theorem since session 6 (C02_compiler_verifiable, hence C02_eval_text_never_faults with no side condition); for the REAL compiler it is decided per program by running the verified checker on the real bytes. The check runs this checker on the REAL compiler's real bytes and constant pool for every generated source (all paths of that bytecode, not only the path taken), so it is independent of the compiler model; the machine model the theorems speak about is tied to vm.rs by step-count/stack-height/collection correspondence, and the fault probes in vm.rs (hook) turn any out-of-contract access of the real VM into a reported FAULT.")
 LEVEL_NOTE = ("Trusted: Lean kernel; the certificate inference is untrusted (its output is checked); the harness's printing of bytes/constants; the probes cover pop, fetch, operand reads, builtin number, base pointer; get_local/set_local/constants use Rust's checked indexing (a panic, reported as such). 'Every accepted source compiles to checkable bytecode' IS a theorem about the compiler model for the whole language (C02_compiler_verifiable: explicit certificate built from the resolved tree; resolver well-formedness, per-instruction rules, function table, all by mutual induction over the tree), hence C02_accepted_program_never_faults and C02_eval_text_never_faults hold for every text and budget with no side condition; for the REAL compiler's bytes the verified checker is run per generated program (independent of the compiler model).")
 TECHNIQUE = "Lean 4 proof (verified bytecode checker, sound for all opcodes; the compiler model's output always passes it: no accepted program ever faults) + the verified checker applied to the real compiler's bytecode + fault probes in the real VM"
 RULE = ("every program of the C01 generators (bounded-exhaustive templates, type-directed random), token-level mutations of them and random "
@@ -37,6 +37,8 @@ def run(res, tier, rng, table_diffs=()):
     srcs += gen2.big_code_programs()
     srcs += gen2.width_boundary_programs()
     srcs += gen2.operand_height_programs()
+    # every jump of a loop / branch at every byte offset (round 10): a placeholder value a real target can equal redirects it
+    srcs += [("offset-sweep", p) for p, _ in gen2.offset_sweep_programs(1500)[::3]]
     srcs += [("iife", p) for p in gen2.iife_programs()]
     srcs += [("tail-shapes", p) for p in gen2.tail_shape_programs()]
     # TYPE CONFUSION: a function value is the one kind of value `Call` trusts (entry offset, locals count). Arithmetic, comparison,
